@@ -63,12 +63,24 @@ class World:
 
 def make_method(world_box, provider, name, is_async, uid):
     if is_async:
+        import inspect
 
-        async def m(self, *args, **kwargs):
+        async def inner(self, *args, **kwargs):
             w = world_box[0]
             if hasattr(w, "acb"):
                 return await w.acb(provider, name, self, args, kwargs)
             return w.cb(provider, name, self, args, kwargs)
+
+        def m(self, *args, **kwargs):
+            # a coroutine function (marked as such) that also remembers the coroutine objects it hands out, so a harness
+            # can tell "called but never awaited" apart from "never called"
+            c = inner(self, *args, **kwargs)
+            created = getattr(world_box[0], "coros", None)
+            if created is not None:
+                created.append((provider, name, c))
+            return c
+
+        inspect.markcoroutinefunction(m)
 
     else:
 
